@@ -25,6 +25,7 @@ RULE = (
     " Every third document: a call with exclude_features in between, then the default call again must return the identical table."
     " A fifth of the documents use scan numbers in the upper half of the unsigned 32-bit range."
     " reject also hands a non-PepXML XML or text file over before, after and between valid PepXML files."
+    " Run names may contain dots that are no extension."
 )
 ASSUMPTIONS = [
     "column names of the returned frame (scan, charge, ret_time, exp_mass, calc_mass, ms_data_file, peptide, "
@@ -56,7 +57,9 @@ def gen_doc(rng, prefix, file_idx):
     for r in range(nruns):
         with_ext = bool(rng.integers(0, 2))
         ext = str(rng.choice([".mzML", ".mzXML", ".raw"]))
-        base = f"run_{file_idx}_{r}" + (ext if with_ext else "")
+        # run names may contain dots that are no file extension (QC_HeLa_0.5ug)
+        stem = f"run_{file_idx}_{r}" + str(rng.choice(["", "", "_0.5ug", ".v2", "_1.25.x"]))
+        base = stem + (ext if with_ext else "")
         data_file = base if with_ext else base + ext
         xml.append(f'<msms_run_summary base_name={quoteattr(base)} raw_data_type="raw" raw_data={quoteattr(ext)}>')
         xml.append('<sample_enzyme name="Trypsin"><specificity cut="KR" no_cut="P" sense="C"/></sample_enzyme>')
